@@ -1,5 +1,787 @@
-//! C12 - monitor not written yet.
+//! C12 - checksum and size verification passes only for files that really
+//! match.
+//!
+//! Refuting events: `verify_size` / `verify_checksum` / `verify_checksums` (on
+//! `Distinfo` and on `Entry`) return `Ok` for a file that differs from the
+//! record, an error for one that matches, or the wrong error kind / payload;
+//! `find_entry` resolves to anything but the shortest recorded trailing
+//! sub-path; `calculate_checksum` / `calculate_size` differ from the oracle.
+//!
+//! Oracle (`oracle::distinfo`): digests from the RustCrypto crates called
+//! directly, the harness's own `$NetBSD` line filter, tail resolution on
+//! bytes; everything else by construction.  Every case is judged by the same
+//! generic oracle from (records, lookup path, bytes on disk); the corruption
+//! label only feeds the evidence histogram.
+//!
+//! Each case makes sure, inside the case body, that its one file exists with
+//! the right content below `cx.scratch/sN/` (one directory per scenario, so
+//! that `--replay` of a single case works); the directory is removed when the
+//! scenario is finished.
 
-use crate::fw::Cx;
+use crate::fw::{show, CaseResult, Cx, Ev};
+use crate::gen::distinfo as gd;
+use crate::oracle::distinfo::{
+    classify, contains, file_digest, last_component, netbsd_filter, patch_sound, resolve_tail,
+    size_line, sum_line, Alg, Kind, ALGS,
+};
+use crate::rng::{hash_strs, Rng};
+use pkgsrc::digest::Digest as LibDigest;
+use pkgsrc::distinfo::{Checksum, Distinfo, DistinfoError, Entry};
+use std::ffi::OsStr;
+use std::os::unix::ffi::OsStrExt;
+use std::path::Path;
 
-pub fn run(_cx: &mut Cx) {}
+#[derive(Clone)]
+struct Rec {
+    name: Vec<u8>,
+    kind: Kind,
+    size: Option<u64>,
+    sums: Vec<(Alg, String)>,
+}
+
+#[derive(Clone)]
+struct Case12 {
+    label: &'static str,
+    recs: Vec<Rec>,
+    /// where the file is written and looked up, relative to the case directory
+    rel: Vec<u8>,
+    disk: Vec<u8>,
+    via_api: bool,
+    /// algorithms counted in the evidence cell of this case
+    focus: Vec<Alg>,
+    content_class: &'static str,
+}
+
+fn harness_fatal(what: &str, e: std::io::Error) -> ! {
+    eprintln!("pvh: C12 harness I/O error ({what}): {e}");
+    std::process::exit(70);
+}
+
+/// Make sure `path` holds exactly `disk`.  All cases of a scenario share one
+/// directory (metadata operations are the expensive part on a journalled file
+/// system); a case never relies on an earlier case having run, so `--replay`
+/// of a single case works.
+fn ensure_file(sdir: &Path, path: &Path, disk: &[u8]) {
+    if let Ok(cur) = std::fs::read(path) {
+        if cur == disk {
+            return;
+        }
+    }
+    let attempt = || -> std::io::Result<()> {
+        if let Some(parent) = path.parent() {
+            std::fs::create_dir_all(parent)?;
+        }
+        std::fs::write(path, disk)
+    };
+    if attempt().is_ok() {
+        return;
+    }
+    // A stale file of an earlier case may sit where a directory is needed
+    // (or the reverse): start the scenario directory afresh.
+    let _ = std::fs::remove_dir_all(sdir);
+    if let Err(e) = attempt() {
+        harness_fatal("write", e);
+    }
+}
+
+fn render(recs: &[Rec]) -> Vec<u8> {
+    let mut t = b"$NetBSD$\n\n".to_vec();
+    for r in recs {
+        for (a, h) in &r.sums {
+            t.extend_from_slice(&sum_line(*a, &r.name, h));
+        }
+        if let Some(n) = r.size {
+            t.extend_from_slice(&size_line(&r.name, n));
+        }
+    }
+    t
+}
+
+fn build(c: &Case12, dir: &Path) -> Distinfo {
+    if c.via_api {
+        let mut di = Distinfo::new();
+        for r in &c.recs {
+            let sums: Vec<Checksum> =
+                r.sums.iter().map(|(a, h)| Checksum::new(a.lib(), h.clone())).collect();
+            let name = OsStr::from_bytes(&r.name);
+            di.insert(Entry::new(name, dir.join(name), sums, r.size));
+        }
+        di
+    } else {
+        Distinfo::from_bytes(&render(&c.recs))
+    }
+}
+
+enum ExpSize {
+    NotFound,
+    Missing,
+    Ok(u64),
+    Mismatch(u64, u64),
+}
+
+enum ExpSum {
+    NotFound,
+    Missing,
+    Ok,
+    Mismatch(String, String),
+}
+
+fn name_ok(p: &Path, rec_name: &[u8], full: &[u8]) -> bool {
+    let b = p.as_os_str().as_bytes();
+    b == rec_name || b == full
+}
+
+fn cmp_size(
+    what: &str,
+    got: Result<u64, DistinfoError>,
+    exp: &ExpSize,
+    rec_name: &[u8],
+    full: &[u8],
+) -> Result<(), String> {
+    let ok = match (&got, exp) {
+        (Ok(n), ExpSize::Ok(e)) => n == e,
+        (Err(DistinfoError::Size(p, e, a)), ExpSize::Mismatch(we, wa)) => {
+            e == we && a == wa && name_ok(p, rec_name, full)
+        }
+        (Err(DistinfoError::MissingSize(_)), ExpSize::Missing) => true,
+        (Err(DistinfoError::NotFound), ExpSize::NotFound) => true,
+        _ => false,
+    };
+    if ok {
+        return Ok(());
+    }
+    let want = match exp {
+        ExpSize::NotFound => "Err(NotFound)".to_string(),
+        ExpSize::Missing => "Err(MissingSize)".to_string(),
+        ExpSize::Ok(n) => format!("Ok({n})"),
+        ExpSize::Mismatch(e, a) => {
+            format!("Err(Size({:?}, expected {e}, actual {a}))", show(rec_name))
+        }
+    };
+    Err(format!("{what} returned {got:?}, expected {want}"))
+}
+
+fn cmp_sum(
+    what: &str,
+    alg: Alg,
+    got: Result<LibDigest, DistinfoError>,
+    exp: &ExpSum,
+    rec_name: &[u8],
+    full: &[u8],
+) -> Result<(), String> {
+    let ok = match (&got, exp) {
+        (Ok(d), ExpSum::Ok) => *d == alg.lib(),
+        (Err(DistinfoError::Checksum(p, d, e, a)), ExpSum::Mismatch(we, wa)) => {
+            *d == alg.lib() && e == we && a == wa && name_ok(p, rec_name, full)
+        }
+        (Err(DistinfoError::MissingChecksum(_, _)), ExpSum::Missing) => true,
+        (Err(DistinfoError::NotFound), ExpSum::NotFound) => true,
+        _ => false,
+    };
+    if ok {
+        return Ok(());
+    }
+    let want = match exp {
+        ExpSum::NotFound => "Err(NotFound)".to_string(),
+        ExpSum::Missing => "Err(MissingChecksum)".to_string(),
+        ExpSum::Ok => format!("Ok({})", alg.keyword()),
+        ExpSum::Mismatch(e, a) => format!(
+            "Err(Checksum({:?}, {}, expected {e}, actual {a}))",
+            show(rec_name),
+            alg.keyword()
+        ),
+    };
+    Err(format!("{what} for {} returned {got:?}, expected {want}", alg.keyword()))
+}
+
+fn observe(ev: &mut Ev, dir: &Path, c: &Case12) -> CaseResult {
+    let path = dir.join(OsStr::from_bytes(&c.rel));
+    ensure_file(dir, &path, &c.disk);
+    let full = path.as_os_str().as_bytes().to_vec();
+
+    // ---- oracle ----
+    let lookup_kind = classify(last_component(&c.rel)).unwrap_or(Kind::Dist);
+    let cands: Vec<&Rec> = c.recs.iter().filter(|r| r.kind == lookup_kind).collect();
+    let names: Vec<&[u8]> = cands.iter().map(|r| &r.name[..]).collect();
+    let rec: Option<&Rec> = resolve_tail(&names, &full).map(|i| cands[i]);
+    let sound = lookup_kind == Kind::Dist || patch_sound(&c.disk);
+    let actual_size = c.disk.len() as u64;
+    let actual: Vec<String> = ALGS.iter().map(|a| file_digest(*a, lookup_kind, &c.disk)).collect();
+    let rec_name: &[u8] = rec.map(|r| &r.name[..]).unwrap_or(b"");
+    let exp_size = match rec {
+        None => ExpSize::NotFound,
+        Some(r) => match r.size {
+            None => ExpSize::Missing,
+            Some(n) if n == actual_size => ExpSize::Ok(n),
+            Some(n) => ExpSize::Mismatch(n, actual_size),
+        },
+    };
+    let exp_sum = |alg: Alg| -> ExpSum {
+        let Some(r) = rec else { return ExpSum::NotFound };
+        let Some((_, h)) = r.sums.iter().find(|(a, _)| *a == alg) else { return ExpSum::Missing };
+        let act = &actual[ALGS.iter().position(|a| *a == alg).unwrap()];
+        if h == act {
+            ExpSum::Ok
+        } else {
+            ExpSum::Mismatch(h.clone(), act.clone())
+        }
+    };
+
+    // ---- evidence ----
+    for a in &c.focus {
+        ev.count(&format!("cell/{}/{}/{}", a.keyword(), lookup_kind.name(), c.label));
+    }
+    ev.count(&format!("content/{}", c.content_class));
+    ev.count(&format!("kind/{}", lookup_kind.name()));
+    ev.count(if c.via_api { "built/api" } else { "built/parsed" });
+    ev.count(&format!("nesting/{}", c.rel.iter().filter(|&&b| b == b'/').count()));
+    match &exp_size {
+        ExpSize::NotFound => ev.count("expect/size/not-found"),
+        ExpSize::Missing => ev.count("expect/size/missing"),
+        ExpSize::Ok(_) => ev.count("expect/size/ok"),
+        ExpSize::Mismatch(..) => ev.count("expect/size/mismatch"),
+    }
+    if !sound {
+        ev.count("skipped/unsound-patch-content");
+    }
+
+    // ---- observations ----
+    let di = build(c, dir);
+    let entry: Option<&Entry> = match di.find_entry(&path) {
+        Ok(e) => Some(e),
+        Err(DistinfoError::NotFound) => None,
+        Err(e) => return Err(format!("find_entry returned {e:?}").into()),
+    };
+    ev.eval();
+    match (entry, rec) {
+        (None, None) => {}
+        (Some(e), Some(r)) if e.filename.as_os_str().as_bytes() == &r.name[..] => {}
+        _ => {
+            return Err(format!(
+                "find_entry resolved to {:?}, the shortest recorded trailing sub-path is {:?}",
+                entry.map(|e| show(e.filename.as_os_str().as_bytes())),
+                rec.map(|r| show(&r.name))
+            )
+            .into())
+        }
+    }
+
+    ev.eval();
+    cmp_size("Distinfo::verify_size", di.verify_size(&path), &exp_size, rec_name, &full)?;
+    if let Some(e) = entry {
+        ev.eval();
+        cmp_size("Entry::verify_size", e.verify_size(&path), &exp_size, rec_name, &full)?;
+    }
+    ev.eval();
+    match Distinfo::calculate_size(&path) {
+        Ok(n) if n == actual_size => {}
+        other => {
+            return Err(format!("calculate_size returned {other:?}, the file has {actual_size} bytes").into())
+        }
+    }
+
+    if sound {
+        for (k, alg) in ALGS.iter().enumerate() {
+            let exp = exp_sum(*alg);
+            match &exp {
+                ExpSum::NotFound => ev.count("expect/checksum/not-found"),
+                ExpSum::Missing => ev.count("expect/checksum/missing"),
+                ExpSum::Ok => ev.count("expect/checksum/ok"),
+                ExpSum::Mismatch(..) => ev.count("expect/checksum/mismatch"),
+            }
+            ev.eval();
+            cmp_sum(
+                "Distinfo::verify_checksum",
+                *alg,
+                di.verify_checksum(&path, alg.lib()),
+                &exp,
+                rec_name,
+                &full,
+            )?;
+            if let Some(e) = entry {
+                ev.eval();
+                cmp_sum(
+                    "Entry::verify_checksum",
+                    *alg,
+                    e.verify_checksum(&path, alg.lib()),
+                    &exp,
+                    rec_name,
+                    &full,
+                )?;
+            }
+            ev.eval();
+            match Distinfo::calculate_checksum(&path, alg.lib()) {
+                Ok(h) if h == actual[k] => {}
+                other => {
+                    return Err(format!(
+                        "calculate_checksum({}) returned {other:?}, the {} digest is {}",
+                        alg.keyword(),
+                        lookup_kind.name(),
+                        actual[k]
+                    )
+                    .into())
+                }
+            }
+        }
+
+        // verify_checksums: one result per recorded checksum, in order
+        let mut lists: Vec<(&str, Vec<Result<LibDigest, DistinfoError>>)> =
+            vec![("Distinfo::verify_checksums", di.verify_checksums(&path))];
+        if let Some(e) = entry {
+            lists.push(("Entry::verify_checksums", e.verify_checksums(&path)));
+        }
+        for (what, got) in lists {
+            match rec {
+                None => {
+                    ev.eval();
+                    let all_nf = !got.is_empty()
+                        && got.iter().all(|x| matches!(x, Err(DistinfoError::NotFound)));
+                    if !all_nf {
+                        return Err(format!("{what} returned {got:?}, expected NotFound").into());
+                    }
+                }
+                Some(r) if r.sums.is_empty() => {} // statement is silent: not compared
+                Some(r) => {
+                    ev.eval();
+                    if got.len() != r.sums.len() {
+                        return Err(format!(
+                            "{what} returned {} results for {} recorded checksums: {got:?}",
+                            got.len(),
+                            r.sums.len()
+                        )
+                        .into());
+                    }
+                    for (g, (alg, _)) in got.into_iter().zip(&r.sums) {
+                        cmp_sum(what, *alg, g, &exp_sum(*alg), rec_name, &full)?;
+                    }
+                }
+            }
+        }
+    }
+
+    let has_token = contains(&c.disk, b"$NetBSD");
+    if c.label != "none" || (lookup_kind == Kind::Patch && has_token) || c.rel.contains(&b'/') {
+        ev.nontrivial(hash_strs(&[c.label.as_bytes(), &c.rel, &c.disk, &render(&c.recs)]));
+    }
+    Ok(())
+}
+
+// ---------------------------------------------------------------------------
+// Scenario generation (never looks at anything the library returned)
+// ---------------------------------------------------------------------------
+
+const HEXD: &[u8; 16] = b"0123456789abcdef";
+
+fn other_hex_digit(r: &mut Rng, old: u8) -> u8 {
+    loop {
+        let d = HEXD[r.below(16)];
+        if d != old {
+            return d;
+        }
+    }
+}
+
+fn record(name: &[u8], kind: Kind, content: &[u8], algs: &[Alg]) -> Rec {
+    Rec {
+        name: name.to_vec(),
+        kind,
+        size: Some(content.len() as u64),
+        sums: algs.iter().map(|a| (*a, file_digest(*a, kind, content))).collect(),
+    }
+}
+
+fn alg_subset(r: &mut Rng) -> Vec<Alg> {
+    let mut a = ALGS.to_vec();
+    r.shuffle(&mut a);
+    if !r.chance(1, 3) {
+        let n = r.range(1, 5);
+        a.truncate(n);
+    }
+    a
+}
+
+fn would_resolve(recs: &[Rec], rel: &[u8]) -> bool {
+    let Some(k) = classify(last_component(rel)) else { return true };
+    let names: Vec<&[u8]> = recs.iter().filter(|r| r.kind == k).map(|r| &r.name[..]).collect();
+    let mut full = b"/x/".to_vec();
+    full.extend_from_slice(rel);
+    resolve_tail(&names, &full).is_some()
+}
+
+/// All cases of one scenario: a main file, a few other recorded files, and
+/// every single-step corruption.
+fn scenario(r: &mut Rng, sc: u64) -> Vec<Case12> {
+    let kind = if r.chance(2, 5) { Kind::Patch } else { Kind::Dist };
+    let mut class = (sc % gd::CONTENT_CLASSES.len() as u64) as usize;
+    if class == 11 && (sc / 12) % 3 != 0 {
+        class = 9;
+    }
+    let mut content = gd::content(r, class);
+    let mut content_class = gd::CONTENT_CLASSES[class];
+    if kind == Kind::Patch && !patch_sound(&content) {
+        // an unterminated kept last line is an excluded zone for patches
+        content.push(b'\n');
+        content_class = match class {
+            4 => "text",
+            _ => content_class,
+        };
+    }
+    let mut used: Vec<Vec<u8>> = vec![];
+    let name = if kind == Kind::Dist && r.chance(1, 3) {
+        // DIST_SUBDIR nesting 1..3 by construction
+        let mut used2 = vec![];
+        let base = gd::fresh_name(r, Kind::Dist, false, true, &mut used2);
+        let mut p = vec![];
+        for _ in 0..r.range(1, 3) {
+            p.extend_from_slice(&gd::raw_name(r, 1, 5, true));
+            p.push(b'/');
+        }
+        p.extend_from_slice(&base);
+        if classify(&p) == Some(Kind::Dist) {
+            used.push(p.clone());
+            p
+        } else {
+            used.push(base.clone());
+            base
+        }
+    } else {
+        gd::fresh_name(r, kind, false, true, &mut used)
+    };
+    let algs = alg_subset(r);
+    let main = record(&name, kind, &content, &algs);
+    let via_api = r.chance(1, 2);
+    let mut serial = 0u32;
+
+    // other recorded files (never verified; hashes are arbitrary)
+    let mut recs: Vec<Rec> = vec![];
+    for _ in 0..r.below(3) {
+        let k = if r.chance(1, 2) { Kind::Patch } else { Kind::Dist };
+        let n = gd::fresh_name(r, k, k == Kind::Dist, true, &mut used);
+        let sums = alg_subset(r).into_iter().map(|a| (a, gd::unique_hash(r, a, &mut serial))).collect();
+        recs.push(Rec { name: n, kind: k, size: Some(r.below(100_000) as u64), sums });
+    }
+    let main_at = r.below(recs.len() + 1);
+    recs.insert(main_at, main.clone());
+
+    let base = Case12 {
+        label: "none",
+        recs: recs.clone(),
+        rel: name.clone(),
+        disk: content.clone(),
+        via_api,
+        focus: algs.clone(),
+        content_class,
+    };
+    let with_main = |f: &dyn Fn(&mut Rec)| -> Vec<Rec> {
+        let mut v = recs.clone();
+        f(&mut v[main_at]);
+        v
+    };
+    let mut out = vec![base.clone()];
+
+    // --- the file changes ---
+    if !content.is_empty() {
+        for _ in 0..24 {
+            let p = r.below(content.len());
+            let mut d = content.clone();
+            d[p] ^= 1 << r.below(8);
+            let fine = match kind {
+                Kind::Dist => true,
+                Kind::Patch => patch_sound(&d) && netbsd_filter(&d) != netbsd_filter(&content),
+            };
+            if fine {
+                out.push(Case12 { label: "flip-byte", disk: d, ..base.clone() });
+                break;
+            }
+        }
+    }
+    if kind == Kind::Patch {
+        // one byte inside a line containing $NetBSD: must still verify
+        let mut spans = vec![];
+        let mut start = 0;
+        for (i, &b) in content.iter().enumerate() {
+            if b == b'\n' {
+                if contains(&content[start..i], b"$NetBSD") {
+                    spans.push((start, i));
+                }
+                start = i + 1;
+            }
+        }
+        if start < content.len() && contains(&content[start..], b"$NetBSD") {
+            spans.push((start, content.len()));
+        }
+        if !spans.is_empty() {
+            let (s, e) = *r.pick(&spans);
+            for _ in 0..24 {
+                let p = r.range(s, e - 1);
+                let mut d = content.clone();
+                let nb = r.byte();
+                if nb == b'\n' || nb == d[p] {
+                    continue;
+                }
+                d[p] = nb;
+                if patch_sound(&d) && netbsd_filter(&d) == netbsd_filter(&content) {
+                    out.push(Case12 { label: "flip-inside-netbsd", disk: d, ..base.clone() });
+                    break;
+                }
+            }
+        }
+    }
+    if !content.is_empty() {
+        let d = match kind {
+            Kind::Dist => content[..content.len() - 1].to_vec(),
+            Kind::Patch => content[1..].to_vec(),
+        };
+        if kind == Kind::Dist || patch_sound(&d) {
+            out.push(Case12 { label: "truncate", disk: d, ..base.clone() });
+        }
+    }
+    {
+        let b = r.byte();
+        let d = match kind {
+            Kind::Dist => {
+                let mut d = content.clone();
+                d.push(b);
+                d
+            }
+            Kind::Patch => {
+                let mut d = vec![if content.is_empty() { b'\n' } else { b }];
+                d.extend_from_slice(&content);
+                d
+            }
+        };
+        if kind == Kind::Dist || patch_sound(&d) {
+            out.push(Case12 { label: "extend", disk: d, ..base.clone() });
+        }
+    }
+
+    // --- the record changes ---
+    let focus = *r.pick(&algs);
+    let fpos = algs.iter().position(|a| *a == focus).unwrap();
+    let hlen = main.sums[fpos].1.len();
+    for (label, at) in [
+        ("hash-digit-first", 0usize),
+        ("hash-digit-middle", r.range(1, hlen - 2)),
+        ("hash-digit-last", hlen - 1),
+    ] {
+        let old = main.sums[fpos].1.as_bytes()[at];
+        let nd = other_hex_digit(r, old);
+        let v = with_main(&|m: &mut Rec| {
+            let mut b = m.sums[fpos].1.clone().into_bytes();
+            b[at] = nd;
+            m.sums[fpos].1 = String::from_utf8(b).unwrap_or_default();
+        });
+        out.push(Case12 { label, recs: v, focus: vec![focus], ..base.clone() });
+    }
+    let cut = *r.pick(&[hlen - 1, hlen / 2, 1, 8]);
+    let v = with_main(&|m: &mut Rec| m.sums[fpos].1.truncate(cut));
+    out.push(Case12 { label: "hash-prefix", recs: v, focus: vec![focus], ..base.clone() });
+    let extra = HEXD[r.below(16)] as char;
+    let v = with_main(&|m: &mut Rec| m.sums[fpos].1.push(extra));
+    out.push(Case12 { label: "hash-extended", recs: v, focus: vec![focus], ..base.clone() });
+    let len = content.len() as u64;
+    let v = with_main(&|m: &mut Rec| m.size = Some(len + 1));
+    out.push(Case12 { label: "size+1", recs: v, ..base.clone() });
+    if len > 0 {
+        let v = with_main(&|m: &mut Rec| m.size = Some(len - 1));
+        out.push(Case12 { label: "size-1", recs: v, ..base.clone() });
+    }
+    let v = with_main(&|m: &mut Rec| {
+        m.sums.remove(fpos);
+    });
+    out.push(Case12 { label: "alg-removed", recs: v, focus: vec![focus], ..base.clone() });
+    let v = with_main(&|m: &mut Rec| m.size = None);
+    out.push(Case12 { label: "size-removed", recs: v, ..base.clone() });
+
+    // --- the lookup changes ---
+    let mut rels: Vec<Vec<u8>> = vec![];
+    match kind {
+        Kind::Dist => {
+            let mut x = b"x".to_vec();
+            x.extend_from_slice(&name); // byte suffix, not a component suffix
+            rels.push(x);
+            if name.contains(&b'/') {
+                rels.push(last_component(&name).to_vec()); // parents dropped
+                let mut y = b"other/".to_vec();
+                y.extend_from_slice(last_component(&name));
+                rels.push(y);
+            } else {
+                rels.push(b"unrecorded.bin".to_vec());
+            }
+        }
+        Kind::Patch => {
+            let mut x = name.clone();
+            x.extend_from_slice(b"x");
+            rels.push(x);
+            rels.push(b"patch-unrecorded".to_vec());
+        }
+    }
+    for rel in rels {
+        if classify(last_component(&rel)) == Some(kind) && !would_resolve(&recs, &rel) {
+            out.push(Case12 { label: "no-tail", rel, focus: ALGS.to_vec(), ..base.clone() });
+        }
+    }
+    // a name of this kind looked up where only the other kind is recorded
+    let mut only_other: Vec<Rec> = recs.iter().filter(|x| x.kind != kind).cloned().collect();
+    if only_other.is_empty() {
+        let (k, n): (Kind, &[u8]) = match kind {
+            Kind::Dist => (Kind::Patch, b"patch-aa"),
+            Kind::Patch => (Kind::Dist, b"foo-1.0.tar.gz"),
+        };
+        only_other.push(record(n, k, &content, &algs));
+    }
+    out.push(Case12 { label: "kind-mismatch", recs: only_other, focus: ALGS.to_vec(), ..base.clone() });
+
+    // --- two recorded names sharing a tail (distfiles only) ---
+    if kind == Kind::Dist && !name.contains(&b'/') {
+        let d1 = gd::raw_name(r, 1, 4, true);
+        let d2 = gd::raw_name(r, 1, 4, true);
+        let mut n2 = d1.clone();
+        n2.push(b'/');
+        n2.extend_from_slice(&name);
+        let mut n3 = d2.clone();
+        n3.push(b'/');
+        n3.extend_from_slice(&n2);
+        if classify(&n2) == Some(Kind::Dist) && classify(&n3) == Some(Kind::Dist) {
+            let mut c2 = content.clone();
+            c2.extend_from_slice(b"-2");
+            let mut c3 = content.clone();
+            c3.extend_from_slice(b"-three");
+            let r1 = main.clone();
+            let r2 = record(&n2, Kind::Dist, &c2, &algs);
+            let r3 = record(&n3, Kind::Dist, &c3, &algs);
+            let mut all = vec![r1.clone(), r2.clone(), r3.clone()];
+            r.shuffle(&mut all);
+            let mut two = vec![r3.clone(), r2.clone()];
+            if r.chance(1, 2) {
+                two.swap(0, 1);
+            }
+            let mk = |recs: &Vec<Rec>, rel: &Vec<u8>, disk: &Vec<u8>| Case12 {
+                label: "shared-tail",
+                recs: recs.clone(),
+                rel: rel.clone(),
+                disk: disk.clone(),
+                ..base.clone()
+            };
+            // the file that matches the longer name's record is judged by the
+            // shortest recorded tail
+            out.push(mk(&all, &n2, &c2));
+            out.push(mk(&all, &n2, &content));
+            out.push(mk(&all, &n3, &c3));
+            out.push(mk(&all, &name, &content));
+            out.push(mk(&two, &n3, &c3));
+            out.push(mk(&two, &n3, &c2));
+            out.push(mk(&two, &n2, &c2));
+        }
+    }
+    out
+}
+
+const BOTH: [&str; 15] = [
+    "none",
+    "flip-byte",
+    "truncate",
+    "extend",
+    "hash-digit-first",
+    "hash-digit-middle",
+    "hash-digit-last",
+    "hash-prefix",
+    "hash-extended",
+    "size+1",
+    "size-1",
+    "alg-removed",
+    "size-removed",
+    "no-tail",
+    "kind-mismatch",
+];
+
+pub fn run(cx: &mut Cx) {
+    cx.default_budget();
+    for a in ALGS {
+        for k in [Kind::Dist, Kind::Patch] {
+            for l in BOTH {
+                cx.ev.require(&format!("cell/{}/{}/{}", a.keyword(), k.name(), l));
+            }
+        }
+        cx.ev.require(&format!("cell/{}/patch/flip-inside-netbsd", a.keyword()));
+        cx.ev.require(&format!("cell/{}/distfile/shared-tail", a.keyword()));
+    }
+    for c in gd::CONTENT_CLASSES {
+        cx.ev.require(&format!("content/{c}"));
+    }
+    for k in [
+        "built/api",
+        "built/parsed",
+        "nesting/0",
+        "nesting/1",
+        "nesting/2",
+        "nesting/3",
+        "expect/size/ok",
+        "expect/size/mismatch",
+        "expect/size/missing",
+        "expect/size/not-found",
+        "expect/checksum/ok",
+        "expect/checksum/mismatch",
+        "expect/checksum/missing",
+        "expect/checksum/not-found",
+    ] {
+        cx.ev.require(k);
+    }
+
+    // A fresh tree per shard.
+    let _ = std::fs::remove_dir_all(&cx.scratch);
+    if let Err(e) = std::fs::create_dir_all(&cx.scratch) {
+        harness_fatal("create scratch", e);
+    }
+    let root = match std::fs::canonicalize(&cx.scratch) {
+        Ok(p) => p,
+        Err(e) => harness_fatal("canonicalize scratch", e),
+    };
+
+    let n = cx.per_shard(8, 128, 1_920, 19_200);
+    let mut r = cx.stream("scenarios");
+    for i in 0..n {
+        // rotate the content classes over shards as well
+        let sc = i * cx.nshards + cx.shard;
+        let dirname = format!("s{i}");
+        let sdir = root.join(&dirname);
+        for c in scenario(&mut r, sc) {
+            cx.check(
+                || {
+                    let recs: Vec<String> = c
+                        .recs
+                        .iter()
+                        .map(|x| {
+                            format!(
+                                "{:?} size={:?} {}",
+                                show(&x.name),
+                                x.size,
+                                x.sums
+                                    .iter()
+                                    .map(|(a, h)| format!("{}={h}", a.keyword()))
+                                    .collect::<Vec<_>>()
+                                    .join(" ")
+                            )
+                        })
+                        .collect();
+                    let shown = if c.disk.len() > 600 {
+                        format!("{}...[{} bytes]", show(&c.disk[..600]), c.disk.len())
+                    } else {
+                        show(&c.disk)
+                    };
+                    format!(
+                        "[{}] lookup of <scratch>/{dirname}/{} holding {:?}; Distinfo built {} recording [{}]",
+                        c.label,
+                        show(&c.rel),
+                        shown,
+                        if c.via_api { "through insert()" } else { "by from_bytes()" },
+                        recs.join("; ")
+                    )
+                },
+                |ev| observe(ev, &sdir, &c),
+            );
+        }
+        let _ = std::fs::remove_dir_all(&sdir);
+    }
+    let _ = std::fs::remove_dir_all(&cx.scratch);
+}
